@@ -28,8 +28,15 @@ Observed, OUTSIDE the property (not emitted by the oracle; T2 still pins the mod
     horizon 2 is taken as that pair — the 2-tuple form has precedence at n = 2 (like validate_bounds' table precedence);
     model and oracle both use that reading;
   * a load / supply device without a `costs` entry raises KeyError in `load_cost_function` — treated as malformed input;
-  * supply `cumulative_bounds` are NOT negated by the loader (positive supply totals fail as infeasible); the generator
-    draws them feasible for the negated bounds;
+  * supply `cumulative_bounds` are NOT negated by the loader (`{0: [1, 5]}` raises 'infeasible', `{0: [-5, -1]}` loads).
+    Read against the property text — "supply devices have their bounds negated and swapped; each cumulative run becomes a
+    bound over exactly the slots up to the next run" — the per-slot bounds are negated, the cumulative runs are taken as
+    given: not a violation; the generator draws them feasible for the negated bounds;
+  * a cumulative run starting at or after the basis has no slots: the cbounds setter rejects it (ValueError, 77b3fee) —
+    malformed input;
+  * device ids (`title` / type), the leaf's class, defaults of storage parameters that were not exported, `rate_clip`, and
+    whether the helpers' result dict drops the `care`/`on` entry or shares other entries with the input are not stated by
+    C20: not checked by the oracle (T2 still compares class and all storage fields with the model);
   * supply x flow_bounds_relative: the curve's x_l/x_h are the NEGATED bounds and the whole cost is then reflected;
     the oracle checks the parameters are the device's bounds, as the code has it;
   * `cumulative_flow_bounds_relative` without `cumulative_bounds` raises TypeError; an empty device list raises inside
@@ -242,7 +249,7 @@ def gen_run(rng, basis, shape=None, zero=True, beyond=False, k=None):
 
 def gen_bounds_run(rng, basis, sign='+', fixed=False, k=None):
   """a `bounds` run of ordered [lo, hi] pairs."""
-  starts = gen_starts(rng, basis, k or pick_k(rng, basis))
+  starts = gen_starts(rng, basis, k or pick_k(rng, basis), beyond=rng.random() < 0.1)   # a start >= basis is simply never reached
   runs = []
   for s in starts:
     if sign == '+':
@@ -356,7 +363,7 @@ def gen_supply(rng, basis, cost_kind):
 # ---- MALFORMED exports: must be rejected -------------------------------------------------------
 def malformed_device(rng, basis):
   why = rng.choice(['no-zero-run', 'fixed-all-open', 'fixed-partly-open', 'unknown-type', 'cumulative-flow', 'cfbr-without-cbounds',
-                    'infeasible-cbounds', 'flow-too-short', 'no-parameters', 'no-costs'])
+                    'infeasible-cbounds', 'cbounds-start-beyond', 'flow-too-short', 'no-parameters', 'no-costs'])
   if why == 'no-zero-run' and basis >= 2:
     d = gen_load(rng, basis, 'none')
     d['bounds']['runs'] = [[s if s else 1, v] for s, v in d['bounds']['runs'] if s == 0 or s > 1]
@@ -382,6 +389,11 @@ def malformed_device(rng, basis):
     d = gen_load(rng, basis, 'none')
     tb = table_of(d['bounds'])
     d['cumulative_bounds'] = gen_cb_run(rng, basis, [F(x[0]) for x in tb], [F(x[1]) for x in tb], feasible=False)
+  elif why == 'cbounds-start-beyond':                  # run start at / after the basis: empty or reversed range, ValueError since 77b3fee
+    d = gen_load(rng, basis, 'none')
+    tb = table_of(d['bounds'])
+    d['cumulative_bounds'] = gen_cb_run(rng, basis, [F(x[0]) for x in tb], [F(x[1]) for x in tb])
+    d['cumulative_bounds']['runs'].append([basis + rng.choice([0, 0, 1, 3]), ['-1', '1']])
   elif why == 'flow-too-short':
     d = gen_load(rng, basis, 'none'); d['costs'] = {'flow': gen_run(rng, basis, shape=2)}
   elif why == 'no-parameters':
@@ -546,7 +558,6 @@ def fail(key, detail):
   return {'key': key, 'detail': detail}
 
 
-S_DEFAULTS = {'c1': 1.0, 'c2': 0.0, 'c3': 0.0, 'capacity': 10, 'damage_depth': 0.0, 'start': 0.0, 'reserve': 0.0, 'efficiency': 1.0}
 S_MAP = {'capacity': 'capacity', 'efficiencyFactor': 'efficiency', 'reserveRatio': 'reserve', 'startingRatio': 'start',
          'fastChargeCostFactor': 'c1', 'flipFlopCostFactor': 'c2', 'deepDischargeCostFactor': 'c3', 'deepDepthRatio': 'damage_depth'}
 
@@ -579,6 +590,8 @@ def o_well_formed(d, basis):
   if d['type'] in ('storage', 'thermal_load') and 'parameters' not in d:
     return 'no parameters'
   if 'cumulative_bounds' in d:
+    if any(s >= basis for s, _ in d['cumulative_bounds']['runs']):
+      return 'a cumulative run starting at or after the basis (no slots up to the next run)'
     lo, hi = o_device_bounds(d)
     for (l, h, s, e) in o_cbounds(d['cumulative_bounds']):
       if h <= l or sum(lo[s:e]) > h or sum(hi[s:e]) < l:
@@ -646,17 +659,15 @@ def o_check_costs(d, dev, basis, tag):
 
 
 def o_check_leaf(d, dev, basis, tag):
+  """the property's claims about one loaded leaf: per-slot bounds (supply: negated and swapped), cumulative bounds,
+  curve parameters = the piecewise-constant expansion of the exported runs.  Nothing else (ids, classes, defaults of
+  parameters that were not exported, rate_clip … are outside C20)."""
   out = []
   key = lambda what: {'kind': 'wrong-' + what, 'device_type': d['type']}
-  want_id = d.get('title', d['type'])
-  if dev.id != want_id:
-    out.append(fail(key('id'), '%s: id %r, expected %r' % (tag, dev.id, want_id)))
-  if len(dev) != basis:
-    out.append(fail(key('length'), '%s: length %d, basis %d' % (tag, len(dev), basis)))
-    return out
   lo, hi = o_device_bounds(d)
-  if not (close(dev.lbounds, lo) and close(dev.hbounds, hi)):
+  if len(dev) != basis or not (close(dev.lbounds, lo) and close(dev.hbounds, hi)):
     out.append(fail(key('bounds'), '%s: bounds %s, expected per slot %s from runs %s' % (tag, np().array(dev.bounds).tolist(), list(zip(lo, hi)), d['bounds'])))
+    return out
   if 'cumulative_bounds' in d:
     want = o_cbounds(d['cumulative_bounds'])
     got = [tuple(float(x) for x in c) for c in (dev.cbounds or [])]
@@ -664,31 +675,27 @@ def o_check_leaf(d, dev, basis, tag):
       out.append(fail(key('cbounds'), '%s: cbounds %s, expected %s' % (tag, got, want)))
   elif dev.cbounds:
     out.append(fail(key('cbounds'), '%s: cbounds %s for a device without cumulative_bounds' % (tag, dev.cbounds)))
-  cls = type(dev).__name__
-  if d['type'] in ('load', 'supply', 'fixed_load'):
-    if cls != 'ADevice':
-      out.append(fail(key('class'), '%s: loaded as %s' % (tag, cls)))
-    elif d['type'] != 'fixed_load':
+  if d['type'] in ('load', 'supply'):
+    if not hasattr(dev, 'f'):
+      out.append(fail(key('curve-parameters'), '%s: the loaded %s has no preference function' % (tag, type(dev).__name__)))
+    else:
       out += o_check_costs(d, dev, basis, tag)
   elif d['type'] == 'storage':
-    want = dict(S_DEFAULTS)
-    for k, v in d['parameters']:
-      if k in S_MAP:
-        want[S_MAP[k]] = pf(v)
-    got = {k: getattr(dev, k) for k in want}
-    if cls != 'SDevice' or not all(close(got[k], want[k]) for k in want):
-      out.append(fail(key('parameters'), '%s: storage parameters %s, expected %s' % (tag, got, want)))
-    clip = {k: pf(v) for k, v in d['parameters'] if k.endswith('ClippingFactor')}
-    want_clip = (clip.get('disChargeRateClippingFactor'), clip.get('chargeRateClippingFactor'))
-    if tuple(dev.rate_clip) != want_clip:
-      out.append(fail(key('parameters'), '%s: rate_clip %s, expected %s' % (tag, dev.rate_clip, want_clip)))
+    want = {S_MAP[k]: pf(v) for k, v in d['parameters'] if k in S_MAP}        # exported parameters only
+    got = {k: getattr(dev, k, None) for k in want}
+    if not all(got[k] is not None and close(got[k], want[k]) for k in want):
+      out.append(fail(key('parameters'), '%s: storage parameters %s, exported %s' % (tag, got, want)))
   elif d['type'] == 'thermal_load':
     p = d['parameters']
     care = o_expand(p['temperatureVariationCareFactor'])
     want = [pf(p['thermalSustainment']), pf(p['efficiencyFactor']), pf(p['initialTemperature']), pf(p['desiredTemperature'])]
-    got = [dev.sustainment, dev.efficiency, dev._t_init, dev._t_optimal]
-    if cls != 'TDevice' or not close(got, want) or not close(np().array(dev._t_range).reshape(-1), o_floats(care)) \
-       or not close(list(dev._t_external), o_floats(p['externalTemperatureProfile'])):
+    try:
+      got = [dev.sustainment, dev.efficiency, dev._t_init, dev._t_optimal]
+      ok = close(got, want) and close(np().array(dev._t_range).reshape(-1), o_floats(care)) \
+        and close(list(dev._t_external), o_floats(p['externalTemperatureProfile']))
+    except AttributeError:
+      ok = False
+    if not ok:
       out.append(fail(key('parameters'), '%s: thermal parameters differ from the export' % tag))
   return out
 
@@ -713,7 +720,11 @@ class C20(Prop):
     'runToArray_spec', 'runToArray_greatest', 'runToArray_perm', 'runToArray_perm_spec', 'runToArray_keyError',
     'runToArrayNp_homogeneous', 'runToCbounds_entries', 'runToCbounds_length', 'runToCbounds_partition', 'runToCbounds_perm',
     'care_spec', 'care_spec_vec', 'care_vector_n2', 'on_spec', 'on_odd', 'supply_spec', 'supplyBounds_spec',
-    'supplyBounds_eq', 'supply_basis2_regression', 'tableBounds_spec', 'load_bounds_spec', 'supply_bounds_spec', 'loadData_length')]
+    'supplyBounds_eq', 'supply_basis2_regression', 'tableBounds_spec', 'load_bounds_spec', 'supply_bounds_spec', 'loadData_length',
+    # bridges to the functions loadDevice / the driver execute, curve parameters per cost kind, leaf composition
+    'runToCboundsNp_eq', 'load_cbounds_spec', 'runToArrayNp_spec', 'flowTerm_spec', 'fbrTerm_spec', 'cboundsOf_chained',
+    'rangesFn_eval', 'cfbr_spec', 'loadCostFunction_ok', 'load_leaf_spec', 'supply_leaf_spec', 'storage_leaf_spec',
+    'storageSet_spec', 'storageParams_spec', 'storageParams_unknown')]
   rule = ('run dictionaries (1..6 runs, scalar / vector values, shuffled keys, basis 1..12 quick / ..48 thorough), care masks, '
           'on-interval lists, supply bounds, and builder exports of every kind (load x each cost kind, fixed_load, storage, supply, '
           'thermal_load); non-trivial: a run dictionary with >= 2 runs; an export with >= 2 runs in some device and >= 2 device kinds; '
@@ -722,7 +733,10 @@ class C20(Prop):
   assumptions = ['keys of a run dictionary are canonical non-negative decimal integers (negative / zero-padded keys not modelled)',
                  'every run of an export carries the export basis; storage / cbounds validators are exercised only inside their accepted range',
                  'numpy slicing / broadcasting / shape inference are re-stated in the model (runToArrayNp, readPair), not verified',
-                 'oracle: expansion "value of the run with the greatest start <= t" coded independently; inputs deep-compared with copies']
+                 'theorems cover run_to_array / cbounds / each cost kind / storage map / leaf composition on homogeneous well-formed runs; '
+                 'the numpy layer on mixed shapes, the validators, the thermal loader and the Python-object <-> Fn correspondence rest on T2 + oracle (see DK/Props/C20.lean docstring)',
+                 'oracle: expansion "value of the run with the greatest start <= t" coded independently; inputs deep-compared with copies; '
+                 'it checks only what C20 states (one leaf per device, bounds / cbounds / curve parameters, supply negated+swapped, helper limits, inputs unmodified)']
 
   # ---- cases
   def cases(self, rng, tier, count):
@@ -749,6 +763,11 @@ class C20(Prop):
       ex(2, [{'type': 'thermal_load', '_kb': 'thermal', 'bounds': run(2, [[0, ['0', '2']]]),
               'parameters': {'desiredTemperature': '20', 'initialTemperature': '18', 'thermalSustainment': '1/2', 'efficiencyFactor': '1',
                              'externalTemperatureProfile': ['10', '11'], 'temperatureVariationCareFactor': run(2, [[0, '2']])}}]),
+      ex(1, [{'type': 'thermal_load', 'bounds': run(1, [[0, ['0', '2']]]),                                         # basis 1 thermal LOADS today and must keep loading
+              'parameters': {'desiredTemperature': '20', 'initialTemperature': '18', 'thermalSustainment': '1/2', 'efficiencyFactor': '1',
+                             'externalTemperatureProfile': ['10'], 'temperatureVariationCareFactor': run(1, [[0, '2']])}}]),
+      ex(3, [{'type': 'load', '_malformed': 'cbounds-start-beyond', 'bounds': run(3, [[0, ['0', '2']]]),                # range check of the cbounds setter (77b3fee)
+              'cumulative_bounds': run(3, [[0, ['-1', '5']], [3, ['-1', '1']]]), 'costs': {}}]),
       ex(1, [{'type': 'storage', '_kb': 'storage-clipping', 'bounds': run(1, [[0, ['-1', '1']]]), 'parameters': [['chargeRateClippingFactor', '2']]}]),
       # regressions of fix 375582f (supply at basis 2; supply x flow_bounds_relative) — MAIN inputs now
       ex(2, [{'type': 'supply', 'bounds': run(2, [[0, ['0', '2']], [1, ['1', '5']]]), 'costs': {}}]),
@@ -864,10 +883,6 @@ class C20(Prop):
       out.append(fail({'kind': 'wrong-bounds', 'fn': fn}, '%s(%s) gives bounds %s, expected %s (limits inside, 0 outside)' % (fn, before, np().array(got).tolist(), want)))
     if not deep_equal(dev, before):
       out.append(fail({'kind': 'input-modified', 'fn': fn}, '%s modified its argument: %s -> %s' % (fn, before, dev)))
-    if res.get('note') is extra or res['note'][1] is extra[1]:
-      out.append(fail({'kind': 'result-aliases-input', 'fn': fn}, '%s returns a dict sharing mutable entries with its argument' % fn))
-    if ('care' in res) or ('on' in res):
-      out.append(fail({'kind': 'spec-key-left', 'fn': fn}, '%s leaves the care/on entry in its result' % fn))
     return out
 
   def oracle_care(self, case):
@@ -907,6 +922,8 @@ class C20(Prop):
           L().load_data(single)
         except Exception as ex1:
           key = {'kind': 'cannot-load', 'device_type': d['type'], 'exc': type(ex1).__name__}
+          if d['type'] == 'thermal_load':
+            key['basis_ge_2'] = basis >= 2            # the array-valued t_range only breaks basis >= 2; basis 1 loads today
           feat = self._feature(d, basis)
           if feat:
             key['feature'] = feat
@@ -933,15 +950,23 @@ class C20(Prop):
   # ---- evidence
   def nontrivial(self, case):
     k = case['k']
-    if k in ('run', 'cb', 'supply'):
+    if k == 'run':
+      return len(case['run']['runs']) >= 2 and has_zero(case['run']) and homogeneous(case['run'])
+    if k == 'cb':
+      return len(case['run']['runs']) >= 2 and not case.get('_bad')
+    if k == 'supply':
       return len(case['run']['runs']) >= 2
     if k == 'care':
-      return '0' in case['care'] and '1' in case['care']
+      return set(case['care']) == {'0', '1'}
     if k == 'on':
       on = case['on']; l = case['l']
+      if len(on) % 2:
+        return False
       m = [any(on[i] <= t <= on[i + 1] for i in range(0, len(on) - 1, 2)) for t in range(l)]
       return any(m) and not all(m)
-    devs = case['export']['devices']
+    e = case['export']; devs = e['devices']
+    if any(('_kb' in d) or ('_malformed' in d) or o_well_formed(d, e['basis']) for d in devs):
+      return False
     return len(set(d['type'] for d in devs)) >= 2 and any(len(d['bounds']['runs']) >= 2 for d in devs)
 
 
